@@ -845,6 +845,9 @@ func conclude(a *Agg, wall time.Duration) int {
 	}
 	if p.Level == "translation_validation" {
 		cov["programs"] = evaluations
+		if n := a.Obs["programs"]; n > 0 {
+			cov["programs"] = int(n)
+		}
 		cov["disagreements_checked"] = int(a.Obs["disagreements_checked"])
 	}
 	if len(a.OtherRaces) > 0 {
